@@ -62,30 +62,41 @@ namespace
         void write_impl(It&, size_t, long, std::false_type) {}
     };
 
-    template <class C0, int MODE>   // MODE 0 iterator, 1 const_iterator, 2 reverse_iterator
+    // MODE 0 iterator, 1 const_iterator (cbegin/cend), 2 reverse_iterator, 3 const_reverse_iterator through the const
+    // overloads rbegin()/rend() of a const container, 4 const_iterator through the const overloads begin()/end()
+    template <class C, int MODE>
+    using mode_iterator_t = std::conditional_t<MODE == 0, typename C::iterator,
+                            std::conditional_t<MODE == 1 || MODE == 4, typename C::const_iterator,
+                            std::conditional_t<MODE == 2, typename C::reverse_iterator, typename C::const_reverse_iterator>>>;
+
+    template <class C0, int MODE>
     struct OptKind
     {
-        static constexpr bool ra = true, lt = true, mut = MODE != 1, ext = false;
+        static constexpr bool ra = true, lt = true, mut = MODE == 0 || MODE == 2, ext = false;
         using C = C0;
-        using It = std::conditional_t<MODE == 0, typename C::iterator, std::conditional_t<MODE == 1, typename C::const_iterator, typename C::reverse_iterator>>;
+        using It = mode_iterator_t<C, MODE>;
         C c; std::vector<long> m; size_t n = 0;
         void build(size_t size, Rng&) { resize(c, size); n = c.size(); m.resize(n); for (size_t i = 0; i < n; ++i) { m[i] = static_cast<long>(i * 3 + 1); c[i] = static_cast<int>(m[i]); } }
         template <class T, class A, class BC> static void resize(xtl::xoptional_vector<T, A, BC>& v, size_t s) { v.resize(s); }
         template <class T, size_t I, class BC> static void resize(xtl::xoptional_array<T, I, BC>&, size_t) {}
         // reverse kinds: model position p designates element n-1-p
-        size_t elem(size_t p) const { return MODE == 2 ? n - 1 - p : p; }
+        size_t elem(size_t p) const { return (MODE == 2 || MODE == 3) ? n - 1 - p : p; }
         It at(size_t p) { return at_impl(p, std::integral_constant<int, MODE>()); }
         It at_impl(size_t p, std::integral_constant<int, 0>) { return c.begin() + static_cast<std::ptrdiff_t>(p); }
         It at_impl(size_t p, std::integral_constant<int, 1>) { return c.cbegin() + static_cast<std::ptrdiff_t>(p); }
         It at_impl(size_t p, std::integral_constant<int, 2>) { It it = c.rbegin(); for (size_t i = 0; i < p; ++i) ++it; return it; }
+        It at_impl(size_t p, std::integral_constant<int, 3>) { const C& cc = c; It it = cc.rbegin(); for (size_t i = 0; i < p; ++i) ++it; return it; }
+        It at_impl(size_t p, std::integral_constant<int, 4>) { const C& cc = c; return cc.begin() + static_cast<std::ptrdiff_t>(p); }
         It begin() { return at(0); } It end() { return end_impl(std::integral_constant<int, MODE>()); }
         It end_impl(std::integral_constant<int, 0>) { return c.end(); }
         It end_impl(std::integral_constant<int, 1>) { return c.cend(); }
         It end_impl(std::integral_constant<int, 2>) { return c.rend(); }
+        It end_impl(std::integral_constant<int, 3>) { const C& cc = c; return cc.rend(); }
+        It end_impl(std::integral_constant<int, 4>) { const C& cc = c; return cc.end(); }
         long value(const It& it) { return static_cast<long>((*it).value()); }
         long index(const It& it, std::ptrdiff_t d) { return static_cast<long>(it[d].value()); }
         long model(size_t p) { return m[elem(p)]; }
-        void write(It& it, size_t p, long v) { write_impl(it, p, v, std::integral_constant<bool, MODE != 1>()); }
+        void write(It& it, size_t p, long v) { write_impl(it, p, v, std::integral_constant<bool, mut>()); }
         void write_impl(It& it, size_t p, long v, std::true_type) { *it = static_cast<int>(v); m[elem(p)] = static_cast<int>(v); }
         void write_impl(It&, size_t, long, std::false_type) {}
     };
@@ -93,26 +104,30 @@ namespace
     template <class C0, int MODE>
     struct CplxKind
     {
-        static constexpr bool ra = true, lt = true, mut = MODE != 1, ext = false;
+        static constexpr bool ra = true, lt = true, mut = MODE == 0 || MODE == 2, ext = false;
         using C = C0;
-        using It = std::conditional_t<MODE == 0, typename C::iterator, std::conditional_t<MODE == 1, typename C::const_iterator, typename C::reverse_iterator>>;
+        using It = mode_iterator_t<C, MODE>;
         C c; std::vector<long> m; size_t n = 0;
         void build(size_t size, Rng&) { resize(c, size); n = c.size(); m.resize(n); for (size_t i = 0; i < n; ++i) { m[i] = static_cast<long>(i * 5 + 2); c.real()[i] = static_cast<double>(m[i]); c.imag()[i] = -static_cast<double>(m[i]); } }
         template <class T, bool B, class A> static void resize(xtl::xcomplex_vector<T, B, A>& v, size_t s) { v.resize(s); }
         template <class T, size_t N, bool B> static void resize(xtl::xcomplex_array<T, N, B>&, size_t) {}
-        size_t elem(size_t p) const { return MODE == 2 ? n - 1 - p : p; }
+        size_t elem(size_t p) const { return (MODE == 2 || MODE == 3) ? n - 1 - p : p; }
         It at(size_t p) { return at_impl(p, std::integral_constant<int, MODE>()); }
         It at_impl(size_t p, std::integral_constant<int, 0>) { return c.begin() + static_cast<std::ptrdiff_t>(p); }
         It at_impl(size_t p, std::integral_constant<int, 1>) { return c.cbegin() + static_cast<std::ptrdiff_t>(p); }
         It at_impl(size_t p, std::integral_constant<int, 2>) { It it = c.rbegin(); for (size_t i = 0; i < p; ++i) ++it; return it; }
+        It at_impl(size_t p, std::integral_constant<int, 3>) { const C& cc = c; It it = cc.rbegin(); for (size_t i = 0; i < p; ++i) ++it; return it; }
+        It at_impl(size_t p, std::integral_constant<int, 4>) { const C& cc = c; return cc.begin() + static_cast<std::ptrdiff_t>(p); }
         It begin() { return at(0); } It end() { return end_impl(std::integral_constant<int, MODE>()); }
         It end_impl(std::integral_constant<int, 0>) { return c.end(); }
         It end_impl(std::integral_constant<int, 1>) { return c.cend(); }
         It end_impl(std::integral_constant<int, 2>) { return c.rend(); }
+        It end_impl(std::integral_constant<int, 3>) { const C& cc = c; return cc.rend(); }
+        It end_impl(std::integral_constant<int, 4>) { const C& cc = c; return cc.end(); }
         long value(const It& it) { auto r = *it; if (r.imag() != -r.real()) return -999999; return static_cast<long>(r.real()); }
         long index(const It& it, std::ptrdiff_t d) { auto r = it[d]; if (r.imag() != -r.real()) return -999999; return static_cast<long>(r.real()); }
         long model(size_t p) { return m[elem(p)]; }
-        void write(It& it, size_t p, long v) { write_impl(it, p, v, std::integral_constant<bool, MODE != 1>()); }
+        void write(It& it, size_t p, long v) { write_impl(it, p, v, std::integral_constant<bool, mut>()); }
         void write_impl(It& it, size_t p, long v, std::true_type) { (*it).real() = static_cast<double>(v); (*it).imag() = -static_cast<double>(v); m[elem(p)] = v; }
         void write_impl(It&, size_t, long, std::false_type) {}
     };
@@ -406,6 +421,12 @@ namespace
     IT_CFG(optional_vector, OptKind<OV, 0>);
     IT_CFG(optional_vector_const, OptKind<OV, 1>);
     IT_CFG(optional_vector_reverse, OptKind<OV, 2>);
+    IT_CFG(optional_vector_const_reverse, OptKind<OV, 3>);
+    IT_CFG(optional_vector_const_begin, OptKind<OV, 4>);
+    IT_CFG(optional_array_const_reverse, OptKind<OA, 3>);
+    IT_CFG(complex_vector_const_reverse, CplxKind<CV, 3>);
+    IT_CFG(complex_vector_const_begin, CplxKind<CV, 4>);
+    IT_CFG(complex_array_const_reverse, CplxKind<CA, 3>);
     IT_CFG(optional_array, OptKind<OA, 0>);
     IT_CFG(optional_array_reverse, OptKind<OA, 2>);
     IT_CFG(complex_vector, CplxKind<CV, 0>);
